@@ -163,6 +163,10 @@ func c04Struct(c *Ctx) {
 		if !zeroLoop {
 			// the fill may live in a helper that receives the buffer
 			for _, b := range blocksWithCallees(fn) {
+				// only unexported helpers: Header.MarshalTo and the like are checked on their own
+				if b.Parent() != fn && token.IsExported(b.Parent().Name()) {
+					continue
+				}
 				for _, in := range b.Instrs {
 					st, ok := in.(*ssa.Store)
 					if !ok || !inAnyLoop(b) {
